@@ -4,7 +4,7 @@
    specification [lp_spec 0 O] of proofs/PolySpec.v.  No terms, no valuations here. *)
 From Coq Require Import List String Bool QArith Qabs ZArith Reals Qreals Lra Lia.
 Import ListNotations.
-Require Import Py ListsGen Sem Term Poly PolySpec QR.
+Require Import Py ListsGen ConstGen Sem Term Poly PolySpec QR.
 Local Open Scope R_scope.
 
 (* ------------------------------------------------------------------ *)
@@ -79,32 +79,38 @@ Qed.
 (** * The relaxation lemma
    If the polytope R ∩ {a·x ≤ b+1} is nonempty and lies inside {a·x ≤ b}, then the whole of R
    lies inside {a·x ≤ b}. *)
-Lemma relax_lemma (n : nat) (Rs : list row) (a : list Q) (b : R) (x0 : list R) :
-  List.length x0 = n -> feas Rs x0 -> dot a x0 <= b + 1 ->
-  (forall x, List.length x = n -> feas Rs x -> dot a x <= b + 1 -> dot a x <= b) ->
+Lemma relax_lemma_gen (n : nat) (Rs : list row) (a : list Q) (b c : R) (x0 : list R) :
+  b < c ->
+  List.length x0 = n -> feas Rs x0 -> dot a x0 <= c ->
+  (forall x, List.length x = n -> feas Rs x -> dot a x <= c -> dot a x <= b) ->
   forall y, List.length y = n -> feas Rs y -> dot a y <= b.
 Proof.
-  intros L0 F0 A0 H y Ly Fy.
+  intros Hbc L0 F0 A0 H y Ly Fy.
   destruct (Rle_dec (dot a y) b) as [Hle|Hgt]; [exact Hle|]. exfalso.
   assert (V0 : dot a x0 <= b) by (apply H; assumption).
-  destruct (Rle_dec (dot a y) (b + 1)) as [H1|H1].
+  destruct (Rle_dec (dot a y) c) as [H1|H1].
   - apply Hgt. apply H; assumption.
   - set (v0 := dot a x0) in *. set (v1 := dot a y) in *.
     assert (Hd : v1 - v0 > 0) by lra.
-    set (l := (b + 1 - v0) / (v1 - v0)).
+    set (l := (c - v0) / (v1 - v0)).
     assert (Hl0 : 0 <= l).
     { unfold l. apply Rmult_le_pos; [lra|]. left. apply Rinv_0_lt_compat. lra. }
     assert (Hl1 : l <= 1).
     { unfold l. apply Rmult_le_reg_r with (r := v1 - v0); [lra|].
       unfold Rdiv. rewrite Rmult_assoc, Rinv_l by lra. lra. }
-    assert (Hlv : l * (v1 - v0) = b + 1 - v0).
+    assert (Hlv : l * (v1 - v0) = c - v0).
     { unfold l. unfold Rdiv. rewrite Rmult_assoc, Rinv_l by lra. lra. }
     assert (Lz : List.length (comb l x0 y) = n) by (rewrite comb_length; congruence).
     assert (Fz : feas Rs (comb l x0 y)) by (apply feas_comb; [lra|congruence|assumption|assumption]).
-    assert (Vz : dot a (comb l x0 y) = b + 1).
+    assert (Vz : dot a (comb l x0 y) = c).
     { rewrite dot_comb by congruence. fold v0 v1. nra. }
     specialize (H _ Lz Fz). rewrite Vz in H. lra.
 Qed.
+Lemma relax_lemma (n : nat) (Rs : list row) (a : list Q) (b : R) (x0 : list R) :
+  List.length x0 = n -> feas Rs x0 -> dot a x0 <= b + 1 ->
+  (forall x, List.length x = n -> feas Rs x -> dot a x <= b + 1 -> dot a x <= b) ->
+  forall y, List.length y = n -> feas Rs y -> dot a y <= b.
+Proof. apply relax_lemma_gen. lra. Qed.
 
 (* ------------------------------------------------------------------ *)
 (** * Rows of a fixed width *)
@@ -392,6 +398,46 @@ Qed.
 End Empty.
 
 (* ------------------------------------------------------------------ *)
+(** * The refinement tolerance *)
+Lemma tol_nonneg : 0 <= Q2R REFINEMENT_TOLERANCE.
+Proof.
+  assert (H : (0 <= REFINEMENT_TOLERANCE)%Q) by (apply Qle_bool_iff; vm_compute; reflexivity).
+  apply Qle_Rle in H. rewrite Q2R_0 in H. exact H.
+Qed.
+Lemma Q2R_tol_bound b :
+  Q2R (tol_bound b) = Q2R b + Q2R REFINEMENT_TOLERANCE * (1 + Rabs (Q2R b)).
+Proof. unfold tol_bound. rewrite Q2R_qadd, Q2R_qmul, Q2R_qadd, Q2R_qabs, Q2R_1. reflexivity. Qed.
+Lemma tol_bound_ge b : Q2R b <= Q2R (tol_bound b).
+Proof.
+  rewrite Q2R_tol_bound. pose proof tol_nonneg. pose proof (Rabs_pos (Q2R b)). nra.
+Qed.
+
+(* feasibility up to the tolerance, and rows whose slack stays below the +1 relaxation *)
+Definition feas_tol (rows : list row) (x : list R) : Prop :=
+  Forall (fun r => dot (fst r) x <= Q2R (tol_bound (snd r))) rows.
+Definition small_rows (rows : list row) : Prop :=
+  Forall (fun r => Q2R REFINEMENT_TOLERANCE * (1 + Rabs (Q2R (snd r))) < 1) rows.
+Lemma feas_tol_cons r rows x :
+  feas_tol (r :: rows) x <-> dot (fst r) x <= Q2R (tol_bound (snd r)) /\ feas_tol rows x.
+Proof.
+  unfold feas_tol. split.
+  - intros H. inversion H; subst. tauto.
+  - intros [H1 H2]. constructor; assumption.
+Qed.
+Lemma small_rows_cons r rows :
+  small_rows (r :: rows) <-> Q2R REFINEMENT_TOLERANCE * (1 + Rabs (Q2R (snd r))) < 1 /\ small_rows rows.
+Proof.
+  unfold small_rows. split.
+  - intros H. inversion H; subst. tauto.
+  - intros [H1 H2]. constructor; assumption.
+Qed.
+Lemma feas_feas_tol rows x : feas rows x -> feas_tol rows x.
+Proof.
+  unfold feas, feas_tol. rewrite !Forall_forall. intros H r Hr. specialize (H r Hr).
+  pose proof (tol_bound_ge (snd r)). lra.
+Qed.
+
+(* ------------------------------------------------------------------ *)
 (** * containment_loop *)
 Section Containment.
 Variable O : oracle.
@@ -399,55 +445,69 @@ Hypothesis HO : lp_spec 0 O.
 Variable n : nat.
 
 Lemma containment_loop_true a_l a_r :
-  wf_rows n a_r -> (exists x0, List.length x0 = n /\ feas a_l x0) ->
+  wf_rows n a_r -> small_rows a_r -> (exists x0, List.length x0 = n /\ feas a_l x0) ->
   containment_loop O a_l a_r = inl true ->
-  forall x, List.length x = n -> feas a_l x -> feas a_r x.
+  forall x, List.length x = n -> feas a_l x -> feas_tol a_r x.
 Proof.
-  intros Hw Hne. induction a_r as [|[a b] rest IH]; intros H x Lx Fx; simpl in H.
-  - apply feas_nil.
+  intros Hw Hsm Hne. induction a_r as [|[a b] rest IH]; intros H x Lx Fx; simpl in H.
+  - constructor.
   - apply wf_rows_cons in Hw. destruct Hw as [La Hw]. simpl in La.
+    apply small_rows_cons in Hsm. destruct Hsm as [Sb Hsm]. simpl in Sb.
     pose proof (HO (mkLP (map qneg a) (a_l ++ [(a, qadd b 1)]))) as Hs.
     destruct (O _) as [f s| | |st|]; try discriminate.
-    destruct (qle (qneg f) b) eqn:E; [|discriminate].
-    apply feas_cons. split; [|apply IH; assumption]. simpl.
+    destruct (qle (qneg f) (tol_bound b)) eqn:E; [|discriminate].
+    apply feas_tol_cons. split; [|apply IH; assumption]. simpl.
     destruct Hs as [[x0 [P0 [F0 V0]]] Hall]. unfold point_of, dim in *. simpl in *.
     rewrite map_length in *. apply qle_true in E. rewrite Q2R_qneg in E. rewrite Q2R_0 in *.
     apply feas_app in F0. destruct F0 as [Fl F0]. apply feas_cons in F0. simpl in F0.
     destruct F0 as [A0 _]. rewrite Q2R_qadd, Q2R_1 in A0.
-    apply (relax_lemma n a_l a (Q2R b) x0); try assumption; try congruence.
-    intros y Ly Fy Ay. assert (Q2R f - 0 <= dot (map qneg a) y).
-    { apply Hall; [congruence|]. apply feas_app. split; [exact Fy|].
-      apply feas_cons. simpl. rewrite Q2R_qadd, Q2R_1. split; [exact Ay|apply feas_nil]. }
-    rewrite dot_map_qneg in H0. lra.
+    apply (relax_lemma_gen n a_l a (Q2R (tol_bound b)) (Q2R b + 1) x0); try assumption; try congruence.
+    + rewrite Q2R_tol_bound. lra.
+    + intros y Ly Fy Ay. assert (Q2R f - 0 <= dot (map qneg a) y).
+      { apply Hall; [congruence|]. apply feas_app. split; [exact Fy|].
+        apply feas_cons. simpl. rewrite Q2R_qadd, Q2R_1. split; [exact Ay|apply feas_nil]. }
+      rewrite dot_map_qneg in H0. lra.
 Qed.
 
+(* answer False: some point of a_l violates a_r — exactly, and (for small rows) beyond the tolerance *)
 Lemma containment_loop_false a_l a_r :
   wf_rows n a_r -> (exists x0, List.length x0 = n /\ feas a_l x0) ->
   containment_loop O a_l a_r = inl false ->
-  exists x, List.length x = n /\ feas a_l x /\ ~ feas a_r x.
+  exists x, List.length x = n /\ feas a_l x /\ ~ feas a_r x /\ (small_rows a_r -> ~ feas_tol a_r x).
 Proof.
   intros Hw Hne. induction a_r as [|[a b] rest IH]; intros H; simpl in H.
   - discriminate.
   - apply wf_rows_cons in Hw. destruct Hw as [La Hw]. simpl in La.
     assert (Rec : containment_loop O a_l rest = inl false ->
-                  exists x, List.length x = n /\ feas a_l x /\ ~ feas ((a, b) :: rest) x).
-    { intros H'. destruct (IH Hw H') as [x [Lx [Fx Nx]]]. exists x. split; [exact Lx|].
-      split; [exact Fx|]. intros F. apply feas_cons in F. tauto. }
+                  exists x, List.length x = n /\ feas a_l x /\ ~ feas ((a, b) :: rest) x /\
+                            (small_rows ((a, b) :: rest) -> ~ feas_tol ((a, b) :: rest) x)).
+    { intros H'. destruct (IH Hw H') as [x [Lx [Fx [Nx Tx]]]]. exists x. split; [exact Lx|].
+      split; [exact Fx|]. split.
+      - intros F. apply feas_cons in F. tauto.
+      - intros Sm F. apply small_rows_cons in Sm. apply feas_tol_cons in F. tauto. }
     pose proof (HO (mkLP (map qneg a) (a_l ++ [(a, qadd b 1)]))) as Hs.
+    pose proof (tol_bound_ge b) as Hge.
     destruct (O _) as [f s| | |st|]; try discriminate.
-    + destruct (qle (qneg f) b) eqn:E; [apply Rec; exact H|].
+    + destruct (qle (qneg f) (tol_bound b)) eqn:E; [apply Rec; exact H|].
       destruct Hs as [[x [Px [Fx Vx]]] _]. unfold point_of, dim in Px. simpl in *.
       rewrite map_length in Px. apply qle_false in E. rewrite Q2R_qneg in E.
       rewrite dot_map_qneg, Q2R_0 in Vx. apply feas_app in Fx.
-      exists x. split; [congruence|]. split; [tauto|]. intros F. apply feas_cons in F. simpl in F. lra.
+      exists x. split; [congruence|]. split; [tauto|]. split.
+      * intros F. apply feas_cons in F. simpl in F. lra.
+      * intros _ F. apply feas_tol_cons in F. simpl in F. lra.
     + destruct Hne as [x0 [L0 F0]]. exists x0. split; [exact L0|]. split; [exact F0|].
-      intros F. apply feas_cons in F. simpl in F. destruct F as [A0 _].
-      destruct Hs as [Hs|Hs].
-      * apply (Hs x0).
-        -- unfold point_of, dim. simpl. rewrite map_length. congruence.
-        -- simpl. apply feas_app. split; [exact F0|]. apply feas_cons. simpl.
-           rewrite Q2R_qadd, Q2R_1. split; [lra|apply feas_nil].
-      * eapply relaxed_not_unbounded; [exact Hs|]. apply in_or_app. right. left. reflexivity.
+      assert (Hgt : Q2R b + 1 < dot a x0).
+      { destruct (Rlt_dec (Q2R b + 1) (dot a x0)) as [Hl|Hl]; [exact Hl|]. exfalso.
+        destruct Hs as [Hs|Hs].
+        * apply (Hs x0).
+          -- unfold point_of, dim. simpl. rewrite map_length. congruence.
+          -- simpl. apply feas_app. split; [exact F0|]. apply feas_cons. simpl.
+             rewrite Q2R_qadd, Q2R_1. split; [lra|apply feas_nil].
+        * eapply relaxed_not_unbounded; [exact Hs|]. apply in_or_app. right. left. reflexivity. }
+      split.
+      * intros F. apply feas_cons in F. simpl in F. lra.
+      * intros Sm F. apply small_rows_cons in Sm. apply feas_tol_cons in F. simpl in *.
+        rewrite Q2R_tol_bound in F. lra.
 Qed.
 
 Lemma containment_loop_total a_l a_r :
@@ -457,7 +517,7 @@ Proof.
   pose proof (HO (mkLP (map qneg a) (a_l ++ [(a, qadd b 1)]))) as Hs.
   pose proof (HT (mkLP (map qneg a) (a_l ++ [(a, qadd b 1)]))) as Ht.
   destruct (O _) as [f s| | |st|]; try contradiction.
-  - destruct (qle (qneg f) b); [exact IH|eexists; reflexivity].
+  - destruct (qle (qneg f) (tol_bound b)); [exact IH|eexists; reflexivity].
   - eexists; reflexivity.
   - exfalso. destruct Hs as [_ Hs]. eapply relaxed_not_unbounded; [exact Hs|].
     apply in_or_app. right. left. reflexivity.
@@ -465,29 +525,35 @@ Qed.
 
 (* verify_polytope_containment *)
 Lemma vpc_true a_l a_r :
-  wf_rows n a_r ->
+  wf_rows n a_r -> small_rows a_r ->
   verify_polytope_containment O n a_l a_r = inl true ->
-  forall x, List.length x = n -> feas a_l x -> feas a_r x.
+  forall x, List.length x = n -> feas a_l x -> feas_tol a_r x.
 Proof.
-  intros Hw H x Lx Fx. unfold verify_polytope_containment in H.
+  intros Hw Hsm H x Lx Fx. unfold verify_polytope_containment in H.
   destruct (is_polytope_empty O n a_l) as [[|]|e] eqn:El; simpl in H; try discriminate.
   - exfalso. eapply is_polytope_empty_true; eauto.
   - apply (is_polytope_empty_false O HO) in El.
     destruct (is_polytope_empty O n a_r) as [[|]|e] eqn:Er; simpl in H; try discriminate.
     eapply containment_loop_true; eauto.
 Qed.
+(* the emptiness pre-check of a_r is exact: when a_r has no point the answer is False although
+   a_r relaxed by the tolerance may well contain a_l; hence the feasibility premise *)
 Lemma vpc_false a_l a_r :
   wf_rows n a_r ->
   verify_polytope_containment O n a_l a_r = inl false ->
-  exists x, List.length x = n /\ feas a_l x /\ ~ feas a_r x.
+  exists x, List.length x = n /\ feas a_l x /\ ~ feas a_r x /\
+            (small_rows a_r -> (exists y, List.length y = n /\ feas a_r y) -> ~ feas_tol a_r x).
 Proof.
   intros Hw H. unfold verify_polytope_containment in H.
   destruct (is_polytope_empty O n a_l) as [[|]|e] eqn:El; simpl in H; try discriminate.
   apply (is_polytope_empty_false O HO) in El.
   destruct (is_polytope_empty O n a_r) as [[|]|e] eqn:Er; simpl in H; try discriminate.
   - destruct El as [x0 [L0 F0]]. exists x0. split; [exact L0|]. split; [exact F0|].
-    eapply is_polytope_empty_true; eauto.
-  - eapply containment_loop_false; eauto.
+    pose proof (is_polytope_empty_true O HO _ _ Er) as Hemp. split.
+    + apply Hemp. exact L0.
+    + intros _ [y [Ly Fy]]. exfalso. apply (Hemp y Ly Fy).
+  - destruct (containment_loop_false a_l a_r Hw El H) as [x [Lx [Fx [Nx Tx]]]].
+    exists x. split; [exact Lx|]. split; [exact Fx|]. split; [exact Nx|]. intros Sm _. apply Tx. exact Sm.
 Qed.
 Lemma vpc_total a_l a_r : lp_total O -> exists b, verify_polytope_containment O n a_l a_r = inl b.
 Proof.
@@ -495,6 +561,17 @@ Proof.
   destruct (is_polytope_empty_total O n a_l HT) as [[|] ->]; simpl; [eexists; reflexivity|].
   destruct (is_polytope_empty_total O n a_r HT) as [[|] ->]; simpl; [eexists; reflexivity|].
   apply containment_loop_total. exact HT.
+Qed.
+Lemma vpc_infeasible_right a_l a_r :
+  lp_total O -> (exists x, List.length x = n /\ feas a_l x) ->
+  (forall y, List.length y = n -> ~ feas a_r y) ->
+  verify_polytope_containment O n a_l a_r = inl false.
+Proof.
+  intros HT [x [Lx Fx]] Hinf. unfold verify_polytope_containment.
+  destruct (is_polytope_empty_total O n a_l HT) as [[|] El]; rewrite El; simpl.
+  - exfalso. apply (is_polytope_empty_true O HO _ _ El x Lx Fx).
+  - destruct (is_polytope_empty_total O n a_r HT) as [[|] Er]; rewrite Er; simpl; [reflexivity|].
+    exfalso. apply (is_polytope_empty_false O HO) in Er. destruct Er as [y [Ly Fy]]. apply (Hinf y Ly Fy).
 Qed.
 End Containment.
 
